@@ -550,6 +550,12 @@ func (s *DiscoveryServer) ProxyUpdate(clusterID cluster.ID, ip string) {
 		}
 	}
 
+	// The push context and the start time must be read atomically with respect to initPushContext: an
+	// old context paired with a time after the cache invalidation would let stale XDS cache writes through.
+	// The request is also enqueued under the lock, as the push queue presumes that a later request carries
+	// a later context when it merges two requests (Start of the first, Push of the second).
+	s.pushContextMu.RLock()
+	defer s.pushContextMu.RUnlock()
 	s.pushQueue.Enqueue(connection, &model.PushRequest{
 		Push:   s.globalPushContext(),
 		Start:  time.Now(),
@@ -561,6 +567,9 @@ func (s *DiscoveryServer) ProxyUpdate(clusterID cluster.ID, ip string) {
 // AdsPushAll will send updates to all nodes.
 // Mainly used in Debug interface.
 func AdsPushAll(s *DiscoveryServer) {
+	// StartPush stamps the start time; keep it paired with the context read here (see ProxyUpdate).
+	s.pushContextMu.RLock()
+	defer s.pushContextMu.RUnlock()
 	s.AdsPushAll(&model.PushRequest{
 		Push:   s.globalPushContext(),
 		Reason: model.NewReasonStats(model.DebugTrigger),
